@@ -9,29 +9,64 @@ import HexProofs.Numeric.Stdev
 import HexProofs.Numeric.Supertrend
 import HexProofs.Numeric.SeriesMore
 import HexProofs.Numeric.Demo
+import HexProofs.Numeric.Total
 /-
 C09 – Calculation is total: no exception, only finite numbers, no gaps after warm-up
 (NUMERIC layer: ordered field `K` with `LawfulPyF K`).
 
-What is proved: every division and `sqrt` in the indicator formulas is guarded, i.e. on the
-DEGENERATE inputs the property names (no losses for RSI, flat window for Stochastic, zero window
-volume for VWMA / cumulative volume for VWAP, zero denominators for TSI and ADX, a variance that
-must not go negative for STDEV) the `_calculate_reading` call returns `.ok` with the documented
-fallback value; a legitimate `0.0` reading is not mistaken for "missing" (KC, Supertrend, MACD,
-HMA, ADX gate on `is None`, not on truthiness); and once a recurrence has a previous reading it
-produces a reading again (no gaps).  ROC is the one formula whose division is NOT guarded: it is
-total exactly when the reference value is non-zero (true for prices, which are positive) –
-`roc_total` / `roc_raises_on_zero`.
+WHAT IS PROVED
 
-Trusted gap: in an ordered field every value is finite (`isFinite = true` is a class law);
-overflow to `inf` and `NaN` of IEEE doubles are outside these theorems (covered by the
-correspondence runs and the oracle search only).
-For the leaf indicators over candle fields (SMA, EMA, RMA, WMA, VWMA, HLA, TR, OBV, ROC) the whole
-row-major run is proved total on EVERY raw stream (`leaf_series_total`) – flat candles, zero
-volume, repeated prices included – with no gaps after warm-up (`sma_no_gaps`).
-Missing for the full property (`C09_FULL`): totality of the whole `append`/`calculate` engine for
-the indicators with sub-indicators / managed helper series (framework induction: the readings
-assumed present in the per-call theorems are present on reachable states).
+(1) Per call (first half of the file): every division and `sqrt` in the indicator formulas is
+guarded, i.e. on the DEGENERATE inputs the property names (no losses for RSI, flat window for
+Stochastic, zero window volume for VWMA / cumulative volume for VWAP, zero denominators for TSI and
+ADX, a variance that must not go negative for STDEV) the `_calculate_reading` call returns `.ok`
+with the documented fallback value; a legitimate `0.0` reading is not mistaken for "missing" (KC,
+Supertrend, MACD, HMA, ADX gate on `is None`, not on truthiness); and once a recurrence has a
+previous reading it produces a reading again.  ROC is the one formula whose division is NOT
+guarded: it is total exactly when the reference value is non-zero – `roc_total` /
+`roc_raises_on_zero` (open known finding).
+
+(2) Whole histories (second half, `…_never_raises` / `…_no_gaps`; derivations in
+HexProofs/Numeric/Total.lean from the whole-series files HexProofs/Numeric/Series*.lean).  For
+EVERY shipped kind except ROC and Amorph – the composites ATR, RSI, KC, STDEV, BBANDS, Supertrend,
+MACD, STOCH, TSI, ADX, HMA, VWAP, the window kinds Donchian, HighestLowest, Aroon, the utilities
+Counter, STDEVTHRES, and the leaves SMA, EMA, RMA, WMA, VWMA, HLA, TR, OBV – with its input a candle
+field, and for every manager `M` with an incremental spec (`MgrSpec.base`: base timeframe,
+`MgrSpec.tf`: collapsing timeframe, `MgrSpec.fill`: timeframe with gap filling):
+  * `NeverRaises M ind`: on every stream the manager accepts (raw-shaped candles; for `tf` / `fill`
+    also time-stamped, sorted, not yet collapsed: `RawTf`), constructing the indicator over ANY
+    initial part, `calculate()`, and appending the rest in ANY chunking RETURNS (the batch run is the
+    schedule without appends).  This is more than the `*_live` theorems of the series files, which
+    say what a live history returns IF it returns: `TreeSpec.live_total` proves that it does.
+  * `Always M ind (NoGaps… w)`: the candles it ends with are, one for one, the candles the manager
+    makes of the stream (`M.spec`: the stream itself, resp. its collapsed / gap-filled candles), and
+    the own reading (each field of a dict reading) is `None` EXACTLY below the kind's warm-up index
+    `w` and a number on EVERY candle from `w` on (`no_gaps_later`: once produced, produced on every
+    later candle).  The warm-up indices are the TRUE ones of the library (e.g. STDEV: `p`, not
+    `p − 1`; TSI: `p + smooth − 1`; HMA: `p + ⌊√p⌋ − 2`; MACD signal: `slow + signal − 2`).
+    Supertrend's `long` / `short` are one-sided by design: `StNoGaps` states `trend` (from `p`),
+    `direction` (every candle) and "exactly one of `long` / `short` from `p` on".  STDEVTHRES'
+    reading is a bool on every candle (`BoolAlways`), Counter's an int on every candle – for EVERY
+    float carrier, so also for the executed IEEE `Float`.
+  Collapsing timeframes and gap filling are covered because what the manager hands to the engine
+  is again a list of raw-shaped candles (`MgrSpec.spec_plain`) – fill candles are just more
+  raw-shaped candles (flat, zero volume) – and the whole-series theorems hold for EVERY such list
+  (flat candles, zero volume, repeated prices included).  The indices of "no gaps" then count the
+  collapsed / filled candles.
+  Parameter guards (the hypotheses of the source theorems): periods `≥ 1`, resp. `≥ 2` where the
+  code path needs it (STOCH, HMA, BBANDS, KC, Donchian, the moving-average leaves: `candles_sum`
+  treats absolute index 0 as "no index"); MACD `2 ≤ fast ≤ slow`, `1 ≤ signal`; the indicator's name
+  and the derived helper names are ordinary, pairwise distinct keys (`KcNames`, `MacdNames`, …:
+  true of the library's generated names, `by decide` in the examples).
+
+TRUSTED GAP.  In an ordered field every value is finite (`finite_in_field`: `isFinite = true` is a
+class law); overflow to `inf` and `NaN` of IEEE doubles are outside these theorems (covered by the
+correspondence runs and the oracle search only).  `K` is exact.
+
+STILL OPEN (`C09_FULL`): inputs that are OTHER INDICATORS' readings (chained indicators inside a
+`Hexital`; there ROC's zero reference is reachable – `roc_raises_on_zero`), ROC over a field that
+can be 0 (e.g. `volume`) where the statement is FALSE, the Amorph / pattern kinds (C16), managers
+with Heikin-Ashi conversion or a lifespan (no `MgrSpec`), and IEEE overflow / NaN.
 -/
 namespace Hex.C09
 open Hex Hex.Numeric
@@ -424,19 +459,459 @@ def periodsOf : Kind K → List Int
   | .adx p s => [p, s]
   | _ => []
 
-/-- The full property: for every well-formed raw stream (flat candles, zero volume, repeated
-prices included) and EVERY shipped kind with periods ≥ 2, the engine `calculate` returns – no
-exception.  (Finiteness of every stored number is `finite_in_field` in the field model and the
-trusted IEEE gap for doubles; "no gaps after warm-up" is `sma_no_gaps` for SMA.)
-NOT proved.  Proved instead: all guarded divisions / `sqrt` per call (above), `leaf_series_total`
-for the nine leaf indicators over candle fields.  Missing: the framework induction through
-sub-indicators and managed helper series (the per-call hypotheses "reading present" hold on
-reachable states), and ROC over an input that can be 0 – where the statement is FALSE
-(`roc_raises_on_zero`). -/
+/-! ## whole histories: never raises, no gaps – on every manager with an incremental spec
+
+Vocabulary (definitions in HexProofs/Numeric/Total.lean, unfolded here by `Iff.rfl`). -/
+
+/-- `NeverRaises M ind`: every history on manager `M` returns -/
+theorem neverRaises_iff (M : MgrSpec K) (ind : Ind K) :
+    NeverRaises M ind ↔ ∀ (init : List (Candle K)) (chunks : List (List (Candle K))),
+      M.Ok (init ++ chunks.flatten) → ∃ snap, candlesOf (runIndicator ind M.cfg init chunks) = .ok snap :=
+  Iff.rfl
+
+/-- … on the base timeframe: every stream of raw-shaped candles, every append schedule -/
+theorem neverRaises_base (ind : Ind K) :
+    NeverRaises (MgrSpec.base K) ind ↔ ∀ (init : List (Candle K)) (chunks : List (List (Candle K))),
+      (∀ c ∈ init ++ chunks.flatten, Plain c) → ∃ snap, candlesOf (runIndicator ind {} init chunks) = .ok snap :=
+  Iff.rfl
+
+/-- … on a collapsing timeframe: every time-sorted raw stream, every append schedule (every append
+re-collapses the open bucket) -/
+theorem neverRaises_tf (tf : Int) (htf : 0 < tf) (ind : Ind K) :
+    NeverRaises (MgrSpec.tf K tf htf) ind ↔ ∀ (init : List (Candle K)) (chunks : List (List (Candle K))),
+      RawTf (init ++ chunks.flatten) → ∃ snap, candlesOf (runIndicator ind (cfgTf tf) init chunks) = .ok snap :=
+  Iff.rfl
+
+/-- … on a collapsing timeframe with gap filling (fill candles are more raw-shaped candles) -/
+theorem neverRaises_fill (tf : Int) (htf : 0 < tf) (ind : Ind K) :
+    NeverRaises (MgrSpec.fill K tf htf) ind ↔ ∀ (init : List (Candle K)) (chunks : List (List (Candle K))),
+      RawTf (init ++ chunks.flatten) → ∃ snap, candlesOf (runIndicator ind (cfgFill tf) init chunks) = .ok snap :=
+  Iff.rfl
+
+/-- the batch run (construct over the whole stream, `calculate()` once) is the history without appends -/
+theorem neverRaises_batch (M : MgrSpec K) (ind : Ind K) (h : NeverRaises M ind) (stream : List (Candle K))
+    (hok : M.Ok stream) : ∃ out, candlesOf (runIndicator ind M.cfg stream []) = .ok out :=
+  h.batch stream hok
+
+/-- `Always M ind P`: whatever a history on `M` returns satisfies `P` relative to what the manager
+makes of the whole stream (`M.spec`: the stream itself on the base timeframe, `resample tf` /
+`fillSpec tf` of it otherwise) -/
+theorem always_iff (M : MgrSpec K) (ind : Ind K) (P : List (Candle K) → List (Candle K) → Prop) :
+    Always M ind P ↔ ∀ (init : List (Candle K)) (chunks : List (List (Candle K))),
+      M.Ok (init ++ chunks.flatten) → ∀ snap, candlesOf (runIndicator ind M.cfg init chunks) = .ok snap →
+        P (M.spec (init ++ chunks.flatten)) snap :=
+  Iff.rfl
+
+theorem spec_base (s : List (Candle K)) : (MgrSpec.base K).spec s = s := rfl
+theorem spec_tf (tf : Int) (htf : 0 < tf) (s : List (Candle K)) : (MgrSpec.tf K tf htf).spec s = resample tf s := rfl
+theorem spec_fill (tf : Int) (htf : 0 < tf) (s : List (Candle K)) : (MgrSpec.fill K tf htf).spec s = fillSpec tf s := rfl
+
+omit [Field K] [LinearOrder K] [IsStrictOrderedRing K] [LawfulPyF K] in
+/-- **no gaps**, unfolded: one output candle per manager candle; the reading `rd` is `None` on the
+candles `0 … w−1` and a number on EVERY candle from the warm-up index `w` on -/
+theorem noGaps_iff (rd : Candle K → Val K) (w : Nat) (raw out : List (Candle K)) :
+    NoGaps rd w raw out ↔ out.length = raw.length ∧ ∀ j, j < out.length →
+      (j < w → rd (out.getD j default) = .none) ∧ (w ≤ j → ∃ x : Num K, rd (out.getD j default) = .num x) :=
+  Iff.rfl
+
+omit [Field K] [LinearOrder K] [IsStrictOrderedRing K] [LawfulPyF K] in
+/-- … with floats (all kinds but the type-preserving ones: VWAP, Donchian, HighestLowest, Counter, TR, OBV) -/
+theorem noGapsFlt_iff (rd : Candle K → Val K) (w : Nat) (raw out : List (Candle K)) :
+    NoGapsFlt rd w raw out ↔ out.length = raw.length ∧ ∀ j, j < out.length →
+      (j < w → rd (out.getD j default) = .none) ∧ (w ≤ j → ∃ y : K, rd (out.getD j default) = .flt y) :=
+  Iff.rfl
+
+/-- the readers: the own reading of `nm`, and field `f` of its dict reading (`reading("nm.f")`) -/
+theorem own_eq (nm : String) (c : Candle K) : own nm c = readingByCandle c nm := rfl
+theorem fieldOf_eq (nm f : String) (c : Candle K) : fieldOf nm f c = (readingByCandle c nm).nested f := rfl
+
+/-- **once produced, produced on every later candle** -/
+theorem no_gaps_later (rd : Candle K → Val K) (w : Nat) (raw out : List (Candle K)) (h : NoGaps rd w raw out)
+    (i j : Nat) (hij : i ≤ j) (hj : j < out.length) (hi : rd (out.getD i default) ≠ .none) :
+    ∃ x : Num K, rd (out.getD j default) = .num x :=
+  h.later i j hij hj hi
+
+/-- a float reading is a number reading -/
+theorem noGapsFlt_noGaps (rd : Candle K → Val K) (w : Nat) (raw out : List (Candle K))
+    (h : NoGapsFlt rd w raw out) : NoGaps rd w raw out := h.num
+
+/-! ### ATR, RSI, STDEV, TSI, HMA, VWAP (scalar readings) -/
+
+section scalar
+variable (M : MgrSpec K)
+
+/-- **ATR never raises** (`period ≥ 1`): batch run and every append schedule, on every manager -/
+theorem atr_never_raises (p : Nat) (hp : 1 ≤ p) (nm : String) (n : Nat) (hk : IsKey nm) (hn : AtrNames nm) :
+    NeverRaises M (mkTop (.atr (p : Int) : Kind K) nm n) := (atr_live_total M p hp nm n hk hn).1
+
+/-- **ATR has no gaps**: `None` on candles `0 … p−1` (TR needs a previous close), a float from `p` on -/
+theorem atr_no_gaps (p : Nat) (hp : 1 ≤ p) (nm : String) (n : Nat) (hk : IsKey nm) (hn : AtrNames nm) :
+    Always M (mkTop (.atr (p : Int) : Kind K) nm n) (NoGapsFlt (own nm) p) := (atr_live_total M p hp nm n hk hn).2
+
+/-- **RSI never raises** (`period ≥ 1`, input a candle field) – whatever the gains and losses -/
+theorem rsi_never_raises (p : Nat) (hp : 1 ≤ p) (nm input : String) (fld : Candle K → Num K) (n : Nat)
+    (hn : RsiNames nm) (hk : IsKey nm) (hin : NoDot input ∧ input ∈ Candle.attrNames)
+    (hattr : ∀ c : Candle K, c.attr input = some (.num (fld c))) :
+    NeverRaises M (mkTop (.rsi (p : Int) input : Kind K) nm n) :=
+  (rsi_live_total M p hp nm input fld n hn hk hin hattr).1
+
+/-- **RSI has no gaps**: warm-up index `p` -/
+theorem rsi_no_gaps (p : Nat) (hp : 1 ≤ p) (nm input : String) (fld : Candle K → Num K) (n : Nat)
+    (hn : RsiNames nm) (hk : IsKey nm) (hin : NoDot input ∧ input ∈ Candle.attrNames)
+    (hattr : ∀ c : Candle K, c.attr input = some (.num (fld c))) :
+    Always M (mkTop (.rsi (p : Int) input : Kind K) nm n) (NoGapsFlt (own nm) p) :=
+  (rsi_live_total M p hp nm input fld n hn hk hin hattr).2
+
+/-- **STDEV never raises** (`period ≥ 1`): the running variance is clamped before `sqrt` -/
+theorem stdev_never_raises (p : Nat) (hp : 1 ≤ p) (nm input : String) (fld : Candle K → Num K) (n : Nat)
+    (hn : SdNames nm) (hin : NoDot input ∧ input ∈ Candle.attrNames)
+    (hattr : ∀ c : Candle K, c.attr input = some (.num (fld c))) :
+    NeverRaises M (mkTop (.stdev (p : Int) input : Kind K) nm n) :=
+  (stdev_live_total M p hp nm input fld n hn hin hattr).1
+
+/-- **STDEV has no gaps**: warm-up index `p` (the library waits for `p + 1` inputs) -/
+theorem stdev_no_gaps (p : Nat) (hp : 1 ≤ p) (nm input : String) (fld : Candle K → Num K) (n : Nat)
+    (hn : SdNames nm) (hin : NoDot input ∧ input ∈ Candle.attrNames)
+    (hattr : ∀ c : Candle K, c.attr input = some (.num (fld c))) :
+    Always M (mkTop (.stdev (p : Int) input : Kind K) nm n) (NoGapsFlt (own nm) p) :=
+  (stdev_live_total M p hp nm input fld n hn hin hattr).2
+
+/-- **TSI never raises** (`period ≥ 1`, `smooth ≥ 1`) – zero denominators included -/
+theorem tsi_never_raises (nm : String) (n p s : Nat) (input : String) (fld : Candle K → Num K)
+    (hp : 1 ≤ p) (hs : 1 ≤ s) (hn : TsiNames nm) (hin : NoDot input ∧ input ∈ Candle.attrNames)
+    (hattr : ∀ c : Candle K, c.attr input = some (.num (fld c))) :
+    NeverRaises M (mkTop (.tsi (p : Int) (s : Int) input : Kind K) nm n) :=
+  (tsi_live_total M nm n p s input fld hp hs hn hin hattr).1
+
+/-- **TSI has no gaps**: warm-up index `p + smooth − 1` -/
+theorem tsi_no_gaps (nm : String) (n p s : Nat) (input : String) (fld : Candle K → Num K)
+    (hp : 1 ≤ p) (hs : 1 ≤ s) (hn : TsiNames nm) (hin : NoDot input ∧ input ∈ Candle.attrNames)
+    (hattr : ∀ c : Candle K, c.attr input = some (.num (fld c))) :
+    Always M (mkTop (.tsi (p : Int) (s : Int) input : Kind K) nm n) (NoGapsFlt (own nm) (p + s - 1)) :=
+  (tsi_live_total M nm n p s input fld hp hs hn hin hattr).2
+
+/-- **HMA never raises** (`period ≥ 2`) -/
+theorem hma_never_raises (p : Nat) (hp : 2 ≤ p) (nm input : String) (fld : Candle K → Num K) (n : Nat)
+    (hn : HmaNames nm) (hin : NoDot input ∧ input ∈ Candle.attrNames)
+    (hattr : ∀ c : Candle K, c.attr input = some (.num (fld c))) :
+    NeverRaises M (mkTop (.hma (p : Int) input : Kind K) nm n) :=
+  (hma_live_total M p hp nm input fld n hn hin hattr).1
+
+/-- **HMA has no gaps**: warm-up index `(p − 1) + (⌊√p⌋ − 1)` -/
+theorem hma_no_gaps (p : Nat) (hp : 2 ≤ p) (nm input : String) (fld : Candle K → Num K) (n : Nat)
+    (hn : HmaNames nm) (hin : NoDot input ∧ input ∈ Candle.attrNames)
+    (hattr : ∀ c : Candle K, c.attr input = some (.num (fld c))) :
+    Always M (mkTop (.hma (p : Int) input : Kind K) nm n) (NoGapsFlt (own nm) (p + Nat.sqrt p - 2)) :=
+  (hma_live_total M p hp nm input fld n hn hin hattr).2
+
+/-- **VWAP never raises** (any period: the formula does not use it) – zero cumulative volume included -/
+theorem vwap_never_raises (p : Int) (nm : String) (n : Nat) (hn : VwapNames nm) :
+    NeverRaises M (mkTop (.vwap p : Kind K) nm n) := (vwap_live_total M p nm n hn).1
+
+/-- **VWAP has no gaps**: a number on EVERY candle (no warm-up; an int `pv` stays an int while the
+cumulative volume is 0) -/
+theorem vwap_no_gaps (p : Int) (nm : String) (n : Nat) (hn : VwapNames nm) :
+    Always M (mkTop (.vwap p : Kind K) nm n) (NoGaps (own nm) 0) := (vwap_live_total M p nm n hn).2
+
+end scalar
+
+/-! ### KC, BBANDS, MACD, STOCH, ADX, Supertrend (dict readings: field by field) -/
+
+section dicts
+variable (M : MgrSpec K)
+
+/-- three fields sharing one warm-up index / with their own warm-up indices, unfolded -/
+theorem noGaps3_iff (nm f₁ f₂ f₃ : String) (w : Nat) (raw out : List (Candle K)) :
+    NoGaps3 nm f₁ f₂ f₃ w raw out ↔ NoGapsFlt (fieldOf nm f₁) w raw out ∧ NoGapsFlt (fieldOf nm f₂) w raw out ∧
+      NoGapsFlt (fieldOf nm f₃) w raw out := Iff.rfl
+theorem noGapsW3_iff (nm f₁ f₂ f₃ : String) (w₁ w₂ w₃ : Nat) (raw out : List (Candle K)) :
+    NoGapsW3 nm f₁ f₂ f₃ w₁ w₂ w₃ raw out ↔ NoGapsFlt (fieldOf nm f₁) w₁ raw out ∧
+      NoGapsFlt (fieldOf nm f₂) w₂ raw out ∧ NoGapsFlt (fieldOf nm f₃) w₃ raw out := Iff.rfl
+
+/-- **KC never raises** (`period ≥ 2`) – zero ATR (flat candles) included -/
+theorem kc_never_raises (p : Nat) (hp : 2 ≤ p) (nm input : String) (fld : Candle K → Num K) (n : Nat)
+    (mult : Num K) (hk : IsKey nm) (hn : KcNames nm) (hin : NoDot input ∧ input ∈ Candle.attrNames)
+    (hattr : ∀ c : Candle K, c.attr input = some (.num (fld c))) :
+    NeverRaises M (mkTop (.kc (p : Int) input mult : Kind K) nm n) :=
+  (kc_live_total M p hp nm input fld n mult hk hn hin hattr).1
+
+/-- **KC has no gaps**: `lower`, `band`, `upper` from index `p` (the ATR helper's warm-up; the
+reading is the dict of three `None`s before) -/
+theorem kc_no_gaps (p : Nat) (hp : 2 ≤ p) (nm input : String) (fld : Candle K → Num K) (n : Nat)
+    (mult : Num K) (hk : IsKey nm) (hn : KcNames nm) (hin : NoDot input ∧ input ∈ Candle.attrNames)
+    (hattr : ∀ c : Candle K, c.attr input = some (.num (fld c))) :
+    Always M (mkTop (.kc (p : Int) input mult : Kind K) nm n) (NoGaps3 nm "lower" "band" "upper" p) :=
+  (kc_live_total M p hp nm input fld n mult hk hn hin hattr).2
+
+/-- **BBANDS never raises** (`period ≥ 2`) -/
+theorem bbands_never_raises (p : Nat) (hp : 2 ≤ p) (nm input : String) (fld : Candle K → Num K) (n : Nat)
+    (hk : IsKey nm) (hn : BbNames nm) (hin : NoDot input ∧ input ∈ Candle.attrNames)
+    (hattr : ∀ c : Candle K, c.attr input = some (.num (fld c))) :
+    NeverRaises M (mkTop (.bbands (p : Int) input : Kind K) nm n) :=
+  (bb_live_total M p hp nm input fld n hk hn hin hattr).1
+
+/-- **BBANDS has no gaps**: `BBL`, `BBM`, `BBU` from index `p` (the STDEV helper's warm-up) -/
+theorem bbands_no_gaps (p : Nat) (hp : 2 ≤ p) (nm input : String) (fld : Candle K → Num K) (n : Nat)
+    (hk : IsKey nm) (hn : BbNames nm) (hin : NoDot input ∧ input ∈ Candle.attrNames)
+    (hattr : ∀ c : Candle K, c.attr input = some (.num (fld c))) :
+    Always M (mkTop (.bbands (p : Int) input : Kind K) nm n) (NoGaps3 nm "BBL" "BBM" "BBU" p) :=
+  (bb_live_total M p hp nm input fld n hk hn hin hattr).2
+
+/-- **MACD never raises** (`2 ≤ fast ≤ slow`, `signal ≥ 1`) -/
+theorem macd_never_raises (nm : String) (n pf ps pg : Nat) (input : String) (fld : Candle K → Num K)
+    (hf : 2 ≤ pf) (hfs : pf ≤ ps) (hg : 1 ≤ pg) (hn : MacdNames nm)
+    (hin : NoDot input ∧ input ∈ Candle.attrNames)
+    (hattr : ∀ c : Candle K, c.attr input = some (.num (fld c))) :
+    NeverRaises M (mkTop (.macd (pf : Int) (ps : Int) (pg : Int) input : Kind K) nm n) :=
+  (macd_live_total M nm n pf ps pg input fld hf hfs hg hn hin hattr).1
+
+/-- **MACD has no gaps**: `MACD` from `slow − 1`, `signal` and `histogram` from `slow + signal − 2` -/
+theorem macd_no_gaps (nm : String) (n pf ps pg : Nat) (input : String) (fld : Candle K → Num K)
+    (hf : 2 ≤ pf) (hfs : pf ≤ ps) (hg : 1 ≤ pg) (hn : MacdNames nm)
+    (hin : NoDot input ∧ input ∈ Candle.attrNames)
+    (hattr : ∀ c : Candle K, c.attr input = some (.num (fld c))) :
+    Always M (mkTop (.macd (pf : Int) (ps : Int) (pg : Int) input : Kind K) nm n)
+      (NoGapsW3 nm "MACD" "signal" "histogram" (ps - 1) (ps + pg - 2) (ps + pg - 2)) :=
+  (macd_live_total M nm n pf ps pg input fld hf hfs hg hn hin hattr).2
+
+/-- **STOCH never raises** (`period ≥ 2`, `smoothK ≥ 1`, `slow ≥ 1`) – flat windows included -/
+theorem stoch_never_raises (p sk sl : Nat) (hp : 2 ≤ p) (hsk : 1 ≤ sk) (hsl : 1 ≤ sl) (nm input : String)
+    (fld : Candle K → Num K) (n : Nat) (hn : StochNames nm) (hin : NoDot input ∧ input ∈ Candle.attrNames)
+    (hattr : ∀ c : Candle K, c.attr input = some (.num (fld c))) :
+    NeverRaises M (mkTop (.stoch (p : Int) (sl : Int) (sk : Int) input : Kind K) nm n) :=
+  (stoch_live_total M p sk sl hp hsk hsl nm input fld n hn hin hattr).1
+
+/-- **STOCH has no gaps**: `stoch` from `p − 1`, `k` from `p + smoothK − 2`, `d` from
+`p + smoothK + slow − 3` -/
+theorem stoch_no_gaps (p sk sl : Nat) (hp : 2 ≤ p) (hsk : 1 ≤ sk) (hsl : 1 ≤ sl) (nm input : String)
+    (fld : Candle K → Num K) (n : Nat) (hn : StochNames nm) (hin : NoDot input ∧ input ∈ Candle.attrNames)
+    (hattr : ∀ c : Candle K, c.attr input = some (.num (fld c))) :
+    Always M (mkTop (.stoch (p : Int) (sl : Int) (sk : Int) input : Kind K) nm n)
+      (NoGapsW3 nm "stoch" "k" "d" (p - 1) (p + sk - 2) (p + sk + sl - 3)) :=
+  (stoch_live_total M p sk sl hp hsk hsl nm input fld n hn hin hattr).2
+
+/-- **ADX never raises** (`period ≥ 1`, `signal ≥ 1`) – zero ATR and zero DI sum included -/
+theorem adx_never_raises (nm : String) (n p sg : Nat) (hp : 1 ≤ p) (hg : 1 ≤ sg) (hn : AdxNames nm) :
+    NeverRaises M (mkTop (.adx (p : Int) (sg : Int) : Kind K) nm n) := (adx_live_total M nm n p sg hp hg hn).1
+
+/-- **ADX has no gaps**: `DM_Plus`, `DM_Neg` from `p`, `ADX` from `p + signal − 1` -/
+theorem adx_no_gaps (nm : String) (n p sg : Nat) (hp : 1 ≤ p) (hg : 1 ≤ sg) (hn : AdxNames nm) :
+    Always M (mkTop (.adx (p : Int) (sg : Int) : Kind K) nm n)
+      (NoGapsW3 nm "ADX" "DM_Plus" "DM_Neg" (p + sg - 1) p p) := (adx_live_total M nm n p sg hp hg hn).2
+
+/-- what "no gaps" means for Supertrend, unfolded: `trend` from `p`; `direction` on every candle;
+`long` / `short` both `None` below `p` and EXACTLY ONE of them a number from `p` on (by design) -/
+theorem stNoGaps_iff (nm : String) (p : Nat) (raw out : List (Candle K)) :
+    StNoGaps nm p raw out ↔
+      NoGaps (fieldOf nm "trend") p raw out ∧ NoGaps (fieldOf nm "direction") 0 raw out ∧
+      ∀ j, j < out.length →
+        (j < p → fieldOf nm "long" (out.getD j default) = .none ∧ fieldOf nm "short" (out.getD j default) = .none) ∧
+        (p ≤ j →
+          ((∃ x : Num K, fieldOf nm "long" (out.getD j default) = .num x) ∧
+            fieldOf nm "short" (out.getD j default) = .none) ∨
+          ((∃ x : Num K, fieldOf nm "short" (out.getD j default) = .num x) ∧
+            fieldOf nm "long" (out.getD j default) = .none)) :=
+  Iff.rfl
+
+/-- **Supertrend never raises** (`period ≥ 1`) – zero ATR included -/
+theorem supertrend_never_raises (p : Nat) (hp : 1 ≤ p) (nm input : String) (mult : Num K) (n : Nat)
+    (hn : StNames nm) (hk : IsKey nm) :
+    NeverRaises M (mkTop (.supertrend (p : Int) input mult : Kind K) nm n) :=
+  (st_live_total M p hp nm input mult n hn hk).1
+
+/-- **Supertrend has no gaps** in `trend` / `direction`; `long` / `short` are one-sided by design -/
+theorem supertrend_no_gaps (p : Nat) (hp : 1 ≤ p) (nm input : String) (mult : Num K) (n : Nat)
+    (hn : StNames nm) (hk : IsKey nm) :
+    Always M (mkTop (.supertrend (p : Int) input mult : Kind K) nm n) (StNoGaps nm p) :=
+  (st_live_total M p hp nm input mult n hn hk).2
+
+end dicts
+
+/-! ### Donchian, HighestLowest, Aroon, Counter, STDEVTHRES -/
+
+section windows
+variable (M : MgrSpec K)
+
+/-- **Donchian never raises** (`period ≥ 2`) -/
+theorem donchian_never_raises (p : Nat) (hp : 2 ≤ p) (nm : String) (n : Nat) (hn : DcNames nm) :
+    NeverRaises M (mkTop (.donchian p : Kind K) nm n) := (donchian_live_total M p hp nm n hn).1
+
+/-- **Donchian has no gaps**: `DCL`, `DCM`, `DCU` from `p − 1` (the bounds keep their type) -/
+theorem donchian_no_gaps (p : Nat) (hp : 2 ≤ p) (nm : String) (n : Nat) (hn : DcNames nm) :
+    Always M (mkTop (.donchian p : Kind K) nm n)
+      (fun raw out => NoGaps (fieldOf nm "DCL") (p - 1) raw out ∧ NoGaps (fieldOf nm "DCM") (p - 1) raw out ∧
+        NoGaps (fieldOf nm "DCU") (p - 1) raw out) := (donchian_live_total M p hp nm n hn).2
+
+/-- **HighestLowest never raises** (`period ≥ 1`) -/
+theorem highestLowest_never_raises (p : Nat) (hp : 1 ≤ p) (nm : String) (n : Nat) (hk : IsKey nm) :
+    NeverRaises M (mkTop (.hl p : Kind K) nm n) := (hl_live_total M p hp nm n hk).1
+
+/-- **HighestLowest has no gaps**: `low`, `high` on EVERY candle (no warm-up) -/
+theorem highestLowest_no_gaps (p : Nat) (hp : 1 ≤ p) (nm : String) (n : Nat) (hk : IsKey nm) :
+    Always M (mkTop (.hl p : Kind K) nm n)
+      (fun raw out => NoGaps (fieldOf nm "low") 0 raw out ∧ NoGaps (fieldOf nm "high") 0 raw out) :=
+  (hl_live_total M p hp nm n hk).2
+
+/-- **Aroon never raises** (`period ≥ 1`: the division is by the period) -/
+theorem aroon_never_raises (p : Nat) (hp : 1 ≤ p) (nm : String) (n : Nat) (hk : IsKey nm) :
+    NeverRaises M (mkTop (.aroon p : Kind K) nm n) := (aroon_live_total M p hp nm n hk).1
+
+/-- **Aroon has no gaps**: `AROONU`, `AROOND`, `AROONOSC` from `p` -/
+theorem aroon_no_gaps (p : Nat) (hp : 1 ≤ p) (nm : String) (n : Nat) (hk : IsKey nm) :
+    Always M (mkTop (.aroon p : Kind K) nm n) (NoGaps3 nm "AROONU" "AROOND" "AROONOSC" p) :=
+  (aroon_live_total M p hp nm n hk).2
+
+/-- **STDEVTHRES never raises** (`period ≥ 1`, any multiplier) -/
+theorem stdevthres_never_raises (p : Nat) (hp : 1 ≤ p) (nm input : String) (fld : Candle K → Num K)
+    (mult : Num K) (n : Nat) (hk : IsKey nm) (hn : ThresNames nm) (hin : NoDot input ∧ input ∈ Candle.attrNames)
+    (hattr : ∀ c : Candle K, c.attr input = some (.num (fld c))) :
+    NeverRaises M (mkTop (.stdevthres (p : Int) input mult : Kind K) nm n) :=
+  (thres_live_total M p hp nm input fld mult n hk hn hin hattr).1
+
+/-- **STDEVTHRES has no gaps**: a bool on EVERY candle – never `None` –, `False` on candles `0 … p−1` -/
+theorem stdevthres_no_gaps (p : Nat) (hp : 1 ≤ p) (nm input : String) (fld : Candle K → Num K)
+    (mult : Num K) (n : Nat) (hk : IsKey nm) (hn : ThresNames nm) (hin : NoDot input ∧ input ∈ Candle.attrNames)
+    (hattr : ∀ c : Candle K, c.attr input = some (.num (fld c))) :
+    Always M (mkTop (.stdevthres (p : Int) input mult : Kind K) nm n)
+      (fun raw out => out.length = raw.length ∧ ∀ j, j < out.length →
+        ∃ b : Bool, own nm (out.getD j default) = .bool b ∧ (j < p → b = false)) :=
+  (thres_live_total M p hp nm input fld mult n hk hn hin hattr).2
+
+end windows
+
+/-- **Counter never raises** – for EVERY float carrier `F` (no field needed: the executed IEEE
+`Float` instance included) -/
+theorem counter_never_raises {F : Type} [PyF F] (M : MgrSpec F) (nm input : String) (fld : Candle F → Num F)
+    (cv : Scalar F) (n : Nat) (hk : IsKey nm) (hin : AttrInput input)
+    (hattr : ∀ c : Candle F, c.attr input = some (.num (fld c))) :
+    NeverRaises M (mkTop (.counter input cv) nm n) := (counter_live_total M nm input fld cv n hk hin hattr).1
+
+/-- **Counter has no gaps**: a Python int on EVERY candle, from candle 0 on -/
+theorem counter_no_gaps {F : Type} [PyF F] (M : MgrSpec F) (nm input : String) (fld : Candle F → Num F)
+    (cv : Scalar F) (n : Nat) (hk : IsKey nm) (hin : AttrInput input)
+    (hattr : ∀ c : Candle F, c.attr input = some (.num (fld c))) :
+    Always M (mkTop (.counter input cv) nm n) (NoGaps (own nm) 0) :=
+  (counter_live_total M nm input fld cv n hk hin hattr).2
+
+/-! ### the leaf indicators, now through the object and on every manager -/
+
+/-- **SMA, EMA, RMA, WMA, VWMA, HLA, TR, OBV never raise** (`period ≥ 2`): `leaf_series_total` lifted
+from the row-major run to every history on every manager (ROC: only for a non-zero input, see
+`leaf_series_total` / `roc_raises_on_zero`) -/
+theorem leaves_never_raise (M : MgrSpec K) (p : Nat) (hp : 2 ≤ p) (nm : String) (n : Nat) (hk : IsKey nm) :
+    NeverRaises M (mkTop (.sma p "close" : Kind K) nm n) ∧
+    NeverRaises M (mkTop (.ema p "close" (fl 2) : Kind K) nm n) ∧
+    NeverRaises M (mkTop (.rma p "close" : Kind K) nm n) ∧
+    NeverRaises M (mkTop (.wma p "close" : Kind K) nm n) ∧
+    NeverRaises M (mkTop (.vwma p : Kind K) nm n) ∧
+    NeverRaises M (mkTop (.hla : Kind K) nm n) ∧
+    NeverRaises M (mkTop (.tr : Kind K) nm n) ∧
+    NeverRaises M (mkTop (.obv : Kind K) nm n) :=
+  ⟨(sma_live_total M p hp nm "close" (·.c) n hk ⟨noDot_close, by decide⟩ (fun _ => rfl)).1,
+   (ema_live_total M p hp nm "close" (·.c) n hk ⟨noDot_close, by decide⟩ (fun _ => rfl)).1,
+   (rma_live_total M p hp nm "close" (·.c) n hk ⟨noDot_close, by decide⟩ (fun _ => rfl)).1,
+   (wma_live_total M p hp nm "close" (·.c) n hk ⟨noDot_close, by decide⟩ (fun _ => rfl)).1,
+   (vwma_live_total M p hp nm n hk).1, (hla_live_total M nm n hk).1, (tr_live_total M nm n hk).1,
+   (obv_live_total M nm n hk).1⟩
+
+/-- **… and have no gaps**: the moving averages from `p − 1`, HLA and OBV from candle 0, TR from
+candle 1 (it needs a previous close) -/
+theorem leaves_no_gaps (M : MgrSpec K) (p : Nat) (hp : 2 ≤ p) (nm : String) (n : Nat) (hk : IsKey nm) :
+    Always M (mkTop (.sma p "close" : Kind K) nm n) (NoGapsFlt (own nm) (p - 1)) ∧
+    Always M (mkTop (.ema p "close" (fl 2) : Kind K) nm n) (NoGapsFlt (own nm) (p - 1)) ∧
+    Always M (mkTop (.rma p "close" : Kind K) nm n) (NoGapsFlt (own nm) (p - 1)) ∧
+    Always M (mkTop (.wma p "close" : Kind K) nm n) (NoGapsFlt (own nm) (p - 1)) ∧
+    Always M (mkTop (.vwma p : Kind K) nm n) (NoGapsFlt (own nm) (p - 1)) ∧
+    Always M (mkTop (.hla : Kind K) nm n) (NoGapsFlt (own nm) 0) ∧
+    Always M (mkTop (.tr : Kind K) nm n) (NoGaps (own nm) 1) ∧
+    Always M (mkTop (.obv : Kind K) nm n) (NoGaps (own nm) 0) :=
+  ⟨(sma_live_total M p hp nm "close" (·.c) n hk ⟨noDot_close, by decide⟩ (fun _ => rfl)).2,
+   (ema_live_total M p hp nm "close" (·.c) n hk ⟨noDot_close, by decide⟩ (fun _ => rfl)).2,
+   (rma_live_total M p hp nm "close" (·.c) n hk ⟨noDot_close, by decide⟩ (fun _ => rfl)).2,
+   (wma_live_total M p hp nm "close" (·.c) n hk ⟨noDot_close, by decide⟩ (fun _ => rfl)).2,
+   (vwma_live_total M p hp nm n hk).2, (hla_live_total M nm n hk).2, (tr_live_total M nm n hk).2,
+   (obv_live_total M nm n hk).2⟩
+
+/-! ### non-vacuity: the five demo candles (`atrDemoRaw` = `C04.demoRaw`; the last two have zero
+volume, the last one is flat) -/
+
+/-- `MACD(2, 3, 2)` on `close`: the batch run returns, and so does the candle-by-candle history -/
+example :
+    (∃ out, candlesOf (runIndicator
+      (mkTop (.macd ((2 : Nat) : Int) ((3 : Nat) : Int) ((2 : Nat) : Int) "close" : Kind ℚ) "MACD_2_3_2" 4)
+      {} atrDemoRaw []) = .ok out) ∧
+    (∃ snap, candlesOf (runIndicator
+      (mkTop (.macd ((2 : Nat) : Int) ((3 : Nat) : Int) ((2 : Nat) : Int) "close" : Kind ℚ) "MACD_2_3_2" 4)
+      {} [] (atrDemoRaw.map fun c => [c])) = .ok snap) := by
+  have h := macd_never_raises (MgrSpec.base ℚ) "MACD_2_3_2" 4 2 3 2 "close" (·.c) (by norm_num) (by norm_num)
+    (by norm_num) macdNames_demo ⟨noDot_close, by decide⟩ (fun _ => rfl)
+  exact ⟨neverRaises_batch _ _ h atrDemoRaw atrDemoRaw_plain, h [] _ atrDemoRaw_plain⟩
+
+/-- … and whatever it returns has five candles; `MACD` is `None` on candle 1 and a float on candles
+2, 3, 4 (warm-up index `slow − 1 = 2`); `histogram` is a float on candles 3, 4 (`slow + signal − 2 = 3`) -/
+example (out : List (Candle ℚ))
+    (hout : candlesOf (runIndicator
+      (mkTop (.macd ((2 : Nat) : Int) ((3 : Nat) : Int) ((2 : Nat) : Int) "close" : Kind ℚ) "MACD_2_3_2" 4)
+      {} atrDemoRaw []) = .ok out) :
+    out.length = 5 ∧ fieldOf "MACD_2_3_2" "MACD" (out.getD 1 default) = .none ∧
+    (∃ y : ℚ, fieldOf "MACD_2_3_2" "MACD" (out.getD 2 default) = .flt y) ∧
+    fieldOf "MACD_2_3_2" "histogram" (out.getD 2 default) = .none ∧
+    (∃ y : ℚ, fieldOf "MACD_2_3_2" "histogram" (out.getD 4 default) = .flt y) := by
+  have h := (macd_no_gaps (MgrSpec.base ℚ) "MACD_2_3_2" 4 2 3 2 "close" (·.c) (by norm_num) (by norm_num)
+    (by norm_num) macdNames_demo ⟨noDot_close, by decide⟩ (fun _ => rfl)).batch atrDemoRaw atrDemoRaw_plain out hout
+  obtain ⟨⟨hl, hm⟩, _, ⟨_, hh⟩⟩ := h
+  have hl5 : out.length = 5 := hl
+  exact ⟨hl5, (hm 1 (by omega)).1 (by norm_num), (hm 2 (by omega)).2 (by norm_num),
+    (hh 2 (by omega)).1 (by norm_num), (hh 4 (by omega)).2 (by norm_num)⟩
+
+/-- the same five candles with one-minute stamps, on a two-minute timeframe WITH gap filling,
+fed one candle at a time: ADX(2, 2) and Supertrend(2, ×3) return -/
+def stamped : List (Candle ℚ) :=
+  [ { Demo.mk 10 12 9 11 100 with ts := some 60 }, { Demo.mk 11 13 10 12 200 with ts := some 120 },
+    { Demo.mk 12 15 11 14 300 with ts := some 180 }, { Demo.mk 14 16 13 15 0 with ts := some 480 },
+    { Demo.mk 15 15 15 15 0 with ts := some 540 } ]
+
+theorem stamped_raw : RawTf stamped := by
+  refine ⟨by decide, by decide, by decide, ?_⟩
+  intro c hc
+  simp only [stamped, List.mem_cons, List.not_mem_nil, or_false] at hc
+  rcases hc with rfl | rfl | rfl | rfl | rfl <;> exact ⟨rfl, rfl⟩
+
+example :
+    (∃ snap, candlesOf (runIndicator (mkTop (.adx ((2 : Nat) : Int) ((2 : Nat) : Int) : Kind ℚ) "ADX_2_2" 4)
+      (cfgFill 120) [] (stamped.map fun c => [c])) = .ok snap) ∧
+    (∃ snap, candlesOf (runIndicator (mkTop (.supertrend ((2 : Nat) : Int) "close" (.int 3) : Kind ℚ) "ST_2" 4)
+      (cfgFill 120) [] (stamped.map fun c => [c])) = .ok snap) :=
+  ⟨adx_never_raises (MgrSpec.fill ℚ 120 (by decide)) "ADX_2_2" 4 2 2 (by norm_num) (by norm_num) adxNames_demo
+      [] _ stamped_raw,
+   supertrend_never_raises (MgrSpec.fill ℚ 120 (by decide)) 2 (by norm_num) "ST_2" "close" (.int 3) 4 stNames_demo
+      (by decide) [] _ stamped_raw⟩
+
+/-! ### the full property -/
+
+/-- The full property: for EVERY shipped kind (any input name, also another indicator's reading),
+periods ≥ 2, ordinary pairwise distinct names, and every stream of well-formed raw candles (flat
+candles, zero volume, repeated prices included), every history of the object – construction,
+`calculate()`, any appends – returns.  (Finiteness of every stored number is `finite_in_field` in
+the field model and the trusted IEEE gap for doubles.)
+
+NOT proved in this generality.  PROVED: the instance of this statement – on every manager with an
+incremental spec, with "no gaps" from the true warm-up index – for every kind but ROC and Amorph
+whose input is a CANDLE FIELD: `atr_`, `rsi_`, `kc_`, `stdev_`, `bbands_`, `supertrend_`, `macd_`,
+`stoch_`, `tsi_`, `adx_`, `hma_`, `vwap_`, `donchian_`, `highestLowest_`, `aroon_`, `counter_`,
+`stdevthres_…_never_raises` / `…_no_gaps`, `leaves_never_raise` / `leaves_no_gaps` (with the
+parameter guards stated there: some kinds need only period ≥ 1, MACD needs `fast ≤ slow` – the
+library's `_validate_fields` swaps them otherwise); per call, all guarded divisions / `sqrt`.
+OPEN: (a) inputs that are other indicators' readings (a chained indicator inside a `Hexital`: its
+input column has its own warm-up `None`s and can be 0); (b) ROC, where the statement is FALSE as
+soon as the reference input can be 0 – `roc_raises_on_zero` (e.g. `volume`, OBV, a MACD line) – and
+true for a field that is never 0 (`leaf_series_total`, row-major run only); (c) the Amorph / pattern
+kinds (C16); (d) managers with Heikin-Ashi conversion or a lifespan; (e) IEEE overflow / NaN. -/
 def C09_FULL : Prop :=
   ∀ (K : Type) [Field K] [LinearOrder K] [IsStrictOrderedRing K] [LawfulPyF K]
-    (k : Kind K) (nm : String) (n : Nat) (raw : List (Candle K)),
-    (∀ p ∈ periodsOf k, 2 ≤ p) → IsKey nm → (∀ c ∈ raw, Plain c ∧ WellFormedCandle c) →
-    ∃ out : List (Candle K), calculate (fuelFor raw) (mkTop k nm n) raw = .ok out
+    (k : Kind K) (nm : String) (n : Nat) (init : List (Candle K)) (chunks : List (List (Candle K))),
+    (∀ p ∈ periodsOf k, 2 ≤ p) → (∀ x ∈ (mkTop k nm n).allNames, IsKey x) → (mkTop k nm n).allNames.Nodup →
+    (∀ c ∈ init ++ chunks.flatten, Plain c ∧ WellFormedCandle c) →
+    ∃ snap : List (Candle K), candlesOf (runIndicator (mkTop k nm n) {} init chunks) = .ok snap
 
 end Hex.C09
